@@ -1,6 +1,8 @@
 use cfg_aliases::cfg_aliases;
 
 fn main() {
+    // declares the `--cfg iroh_verif` name used by the verification hooks (off in normal builds)
+    println!("cargo:rustc-check-cfg=cfg(iroh_verif)");
     cfg_aliases! {
         wasm_browser: { all(target_family = "wasm", target_os = "unknown") },
         with_crypto_provider: { any(feature = "tls-ring", feature = "tls-aws-lc-rs") }
